@@ -293,7 +293,7 @@ pub open spec fn header_policy(hdrs0: Seq<Header>, decl0: Option<usize>, hh: Hea
         let ghost declared0 = __self.data_length;
 //@closure ~equiv("Date")~ |h: &Header| -> (b: bool) ensures b == hdr_is(*h, "Date"@)
 //@closure ~equiv("Server")~ |h: &Header| -> (b: bool) ensures b == hdr_is(*h, "Server"@)
-//@before 2 if !self.headers.iter().any
+//@before 1 if @after build_date_header
         // ---- state after the Date step
         let ghost h1 = __self.headers@;
         proof {   // [C19,C04]
